@@ -100,6 +100,7 @@ var memBefore, memAfter runtime.MemStats
 // c05Exec runs one input; steps are returned for the scaling oracle.
 func c05Exec(c *rawCase, measureAlloc bool) (*core.Finding, int64) {
 	n := len(c.Stream)
+	resetGlobals()
 	budget := stepBudget(n)
 	var p mq.Packet
 	var err error
